@@ -46,5 +46,6 @@ GNext ==
 GSpec == GInit /\ [][GNext]_gvars
 
 Emit == (Idle /\ Len(hist.steps) > 0) =>
-           JsonSerialize(OutDir \o "/b" \o ToString(TLCGet("stats").traces) \o ".json", hist)
+           JsonSerialize(OutDir \o "/b" \o ToString(TLCGet("stats").traces) \o ".json",
+                         [init |-> hist.init, steps |-> hist.steps, answers |-> answers])
 =============================================================================
